@@ -189,10 +189,9 @@ class EditLayoutProtocol(Protocol):
         r = uf_shape_value(st, "EditLayout.layout", [ident], LAYOUT)
         _seq(r).uf_key = ident
         if st.capture is None:
-            done = st.ghost.setdefault("layouts_known", {})
-            k = ident.get_id()
-            if k not in done:
-                done[k] = ident  # (keeps the term, hence its id, alive)
+            done = st.ghost.setdefault("layouts_known", [])
+            if not any(z3.eq(ident, i2) for i2 in done):   # (the same term: structural identity, not a solver query)
+                done.append(ident)
                 text = vals["text"]
                 play().add_fact(lambda y, j, r=r, text=text: seg_wf(r, text, y, j))
         return r
@@ -485,7 +484,7 @@ def same_line(x, y):
                 implies(both(0 <= j, j <= n_segs(x)), colsum(x, j) == colsum(y, j)))
 
 
-@contract(TL + "shift_line", property=("C10", "C03"), alias="as-a-list", replayable=False)
+@contract(TL + "shift_line", property="C10", alias="as-a-list", replayable=False)
 class shift_line_list:
     params = dict(segs=LINE3, amount=Int)
     result = LINE3
@@ -570,7 +569,7 @@ def _ccw_callee(a, result):
     return ()
 
 
-@contract(TL + "calc_coords", property=("C10", "C09"), alias="cell-with-witness", replayable=False)
+@contract(TL + "calc_coords", property="C10", alias="cell-with-witness", replayable=False)
 class calc_coords_w:
     contract_overrides = L2.calc_coords.contract_overrides
     params = dict(text=L2.TEXT, layout=LAYOUT, pos=Int, clamp=Int)
@@ -632,11 +631,14 @@ def cursor_cell(old, maxcol):
     """(callee views) the record of the cursor's cell in L(old, maxcol).  calc_coords is a function of its arguments (it
     reads nothing else), so two look-ups of the same position in the same layout on one path are ONE record."""
     lay = Lay(old, maxcol)
-    known = cur().ghost.setdefault("cursor_cells", {})
-    key = (_seq(lay).uf_key.get_id(), V._z(cursor_index(old)).get_id())
-    if key not in known:
-        known[key] = (CellOf.some(shown(old), lay, cursor_index(old), "cursor"), lay, cursor_index(old))  # (terms kept alive)
-    return known[key][0]
+    known = cur().ghost.setdefault("cursor_cells", [])
+    lid, ci = _seq(lay).uf_key, cursor_index(old)
+    for lid2, ci2, rec in known:
+        if z3.eq(lid, lid2) and z3.eq(V._z(ci), ci2):   # (the same terms: structural identity, not a solver query)
+            return rec
+    rec = CellOf.some(shown(old), lay, ci, "cursor")
+    known.append((lid, V._z(ci), rec))
+    return rec
 
 
 def view_of(old, maxcol):
@@ -837,15 +839,17 @@ def cursor_of(old, maxcol):
     such a state on one path are ONE record."""
     st = cur()
     c = cursor_cell(old, maxcol)
-    known = st.ghost.setdefault("cursor_records", {})
-    key = (id(c), V._z(maxcol).get_id())
-    if key not in known:
+    known = st.ghost.setdefault("cursor_records", [])
+    for c2, m2, r in known:
+        if c2 is c and z3.eq(V._z(maxcol), m2):
+            break
+    else:
         r = Cursor(c, maxcol, (ite(c.held, clamp_into(c.x, maxcol), st.fresh_int("cx")), ite(c.held, c.y, st.fresh_int("cy"))))
         for _l, f in r.facts():
             st.assume(f)
-        known[key] = (r, maxcol)
-    st.ghost.setdefault("cursors", []).append(known[key][0])
-    return known[key][0]
+        known.append((c, V._z(maxcol), r))
+    st.ghost.setdefault("cursors", []).append(r)
+    return r
 
 
 def _cursor_clauses(old, maxcol, loc, result):
@@ -1173,7 +1177,7 @@ def _clpw_callee(a, result):
     return ()
 
 
-@contract(TL + "calc_line_pos", property=("C10", "C09"), alias="position-with-witness", replayable=False)
+@contract(TL + "calc_line_pos", property="C10", alias="position-with-witness", replayable=False)
 class calc_line_pos_w:
     contract_overrides = L2.calc_line_pos.contract_overrides
     params = dict(text=L2.TEXT, line_layout=LINE3, pref_col=PREFCOL)
@@ -1244,7 +1248,7 @@ def _cposw_callee(a, result):
     return ()
 
 
-@contract(TL + "calc_pos", property=("C10", "C09"), alias="position-with-witness", replayable=False)
+@contract(TL + "calc_pos", property="C10", alias="position-with-witness", replayable=False)
 class calc_pos_w:
     contract_overrides = {TL + "calc_line_pos": calc_line_pos_w}
     params = dict(text=L2.TEXT, layout=LAYOUT, pref_col=PREFCOL, row=Int)
@@ -1497,7 +1501,7 @@ def _kp_requires(s, a):
 _KP_OV = {ED + "Edit.set_edit_pos": set_edit_pos_geo}
 
 
-@contract(ED + "Edit.keypress", property=("C10", "C09"), alias="up-down-home-end", contract_overrides=_KP_OV, inline=(ED + "Edit.edit_pos",), globals_=ENC, **GEOKW)
+@contract(ED + "Edit.keypress", property="C10", alias="up-down-home-end", contract_overrides=_KP_OV, inline=(ED + "Edit.edit_pos",), globals_=ENC, **GEOKW)
 class keypress_layout_keys:
     """The keys contracts/C10_edit.py leaves out: they go through the layout."""
     params = dict(size=Tup(Int), key=KEY)
